@@ -154,6 +154,9 @@ MUTANTS = [
     ("boundary_sub_is_add", "bempp_cl/api/assembly/boundary_operator.py", "        return self.__add__(-other)", "        return self.__add__(other)", 0, ["C14"]),
     ("discrete_neg_positive", "bempp_cl/api/assembly/discrete_boundary_operator.py", "return _ScaledDiscreteOperator(self, -1)", "return _ScaledDiscreteOperator(self, 1)", 0, ["C14"]),
     ("blocked_mul_operand_order", "bempp_cl/api/assembly/blocked_operator.py", "return ProductBlockedOperator(self, other)", "return ProductBlockedOperator(other, self)", 0, ["C14"]),
+    ("hyp_guard_trial_dropped", "bempp_cl/api/operators/boundary/laplace.py", "    if dual_to_range.shapeset.identifier != \"p1_discontinuous\":", "    if domain.shapeset.identifier != \"p1_discontinuous\":", 0, ["C06"]),
+    ("efield_guard_accepts_bc", "bempp_cl/api/operators/boundary/maxwell.py", "    if domain.identifier != \"rwg0\":", "    if domain.identifier not in (\"rwg0\", \"snc0\"):", 0, ["C06"]),
+    ("maxwell_pot_guard_removed", "bempp_cl/api/operators/potential/maxwell.py", "    if space.identifier != \"rwg0\":", "    if space is None:", 1, ["C08"]),
     ("product_shape_swapped", "bempp_cl/api/assembly/discrete_boundary_operator.py", "super().__init__(dtype, (op1.shape[0], op2.shape[1]))", "super().__init__(dtype, (op2.shape[0], op1.shape[1]))", 0, ["C14"]),
     ("scaled_dtype_ignores_alpha", "bempp_cl/api/assembly/discrete_boundary_operator.py", "dtype = _np.result_type(op.dtype, type(alpha))", "dtype = op.dtype", 0, ["C14"]),
     ("hash_drops_multipliers", "bempp_cl/api/space/space.py", "        md5_gen.update(self.local_multipliers.tobytes())\n", "", 0, ["C14"]),
@@ -212,6 +215,8 @@ MUTANTS = [
 
 # behaviour-preserving rewrites: every listed check must stay silent (exit 0)
 EQUIVALENTS = [
+    ("eq_guard_not_eq", "bempp_cl/api/operators/boundary/maxwell.py", "    if domain.identifier != \"rwg0\":", "    if not (domain.identifier == \"rwg0\"):", 0, ["C06"]),
+    ("eq_guard_in_tuple", "bempp_cl/api/operators/potential/maxwell.py", "    if space.identifier != \"rwg0\":", "    if space.identifier not in (\"rwg0\",):", 0, ["C08"]),
     ("eq_cube_power", NK, "output[j] *= -m_inv_4pi / (dist[j] * dist[j] * dist[j])", "output[j] *= -m_inv_4pi / dist[j] ** 3", 0, ["C01", "C05", "C20"]),
     ("eq_commute_factors", NK, "output_real[j] = _np.cos(wavenumber_real * dist[j]) * m_inv_4pi / dist[j]", "output_real[j] = m_inv_4pi * _np.cos(dist[j] * wavenumber_real) / dist[j]", 0, ["C05", "C08", "C20"]),
     ("eq_rename_local", NK, "            local_factors[index] = factors[index] * test_grid_data.integration_elements[test_element]\n        for test_point_index in range(n_quad_points):\n            test_global_point = test_global_points[:, test_point_index]\n            kernel_values = kernel_evaluator(\n                test_global_point,\n                trial_global_points,\n                test_normal,\n                trial_normals,\n                kernel_parameters,\n            )\n            for index in range(n_trial_elements * n_quad_points):\n                tmp[index] = kernel_values[index] * (local_factors[index] * quad_weights[test_point_index])\n\n            for trial_element_index in range(n_trial_elements):\n                if is_adjacent[trial_element_index]:\n                    continue\n                trial_element = trial_elements[trial_element_index]\n                for test_fun_index in range(nshape_test):\n                    for trial_fun_index in range(nshape_trial):\n                        for quad_point_index in range(n_quad_points):\n                            local_result[trial_element_index, test_fun_index, trial_fun_index] += (\n                                tmp[trial_element_index * n_quad_points + quad_point_index]\n                                * local_trial_fun_values[0, trial_fun_index, quad_point_index]",
